@@ -471,7 +471,7 @@ def anchored():
 
 
 def run(ctx):
-    n_comp = ctx.pick(48, 1600)
+    n_comp = ctx.pick(48, 4000)
     n_states = ctx.pick(64, 120)
     with reach(ctx, anchored()):
         for c in range(n_comp):
@@ -482,7 +482,7 @@ def run(ctx):
                 continue
             sweep_composition(ctx, ctx.seed * 100003 + c, n_states, debug=(c % 2 == 0))
         configs = compose.shipped_configs()
-        seeds = ctx.pick(2, 12)
+        seeds = ctx.pick(2, 30)
         steps = ctx.pick(150, 600)
         job = 0
         for name, path, data in configs:
